@@ -10,6 +10,12 @@ FIXED = [
  ("KF-C01-5", "C01", "4d5f0fd", "C01.instrumentable", "a function with a nonlocal/global declaration cannot be instrumented: SyntaxError 'name used prior to nonlocal declaration'"),
  ("KF-C01-6", "C01", "f7c1846", "C01.instrumentable", "a function containing a loop with a starred target (for a, *rest in ...) cannot be instrumented: NotImplementedError when a probe is activated or tooled() is applied"),
  ("KF-C01-7", "C01", "7cbc100", "C01.same_outcome", "a function with a local annotation that cannot be evaluated (y: OnlyForTypeCheckers = v) raises once instrumented; Python never evaluates such annotations"),
+ ("KF-C01-8", "C01", "bdd0857", "C01.same_outcome", "a bare annotation on an attribute or item (o.n: int) makes any probed call of the function raise KeyError (regression of e824295: the declaration was forced through interact although it declares no variable)"),
+ ("KF-C01-9", "C01", "238526d", "C01.same_outcome", "the annotation of an attribute target (o.m: OnlyForTypeCheckers = v) is counted as a use of the names it mentions: PteraNameError under full instrumentation although Python never evaluates it"),
+ ("KF-C01-10", "C01", "21219a0", "C01.same_outcome", "the name of an inner 'async def' is taken for an undefined global: PteraNameError at entry under full instrumentation"),
+ ("KF-C01-11", "C01", "4a621bd", "C01.same_outcome", "StopIteration thrown into an instrumented generator reaches the generator as RuntimeError (regression of 5958c50: PEP 479 applies to the helper the yields are delegated to)"),
+ ("KF-C04-6", "C04", "3b96448", "demo:findings/review/R2/demo_5.py", "an override of a global that the function declares ('global G') but only reads is stored into the module and outlives the call and the probe (regression of 4d5f0fd)"),
+ ("KF-C16-6", "C16", "c3d53db", "demo:findings/review/R4/demo_2.py", "a declared-only variable reached by a generator that is resumed after its probes ended fails with TypeError ('NoneType' is not subscriptable) instead of a name error"),
  ("KF-C02-1", "C02", "f50c678", "C02.activation", "a variable assigned only inside an except block cannot be probed: 'Cannot find a variable named ...'"),
  ("KF-C02-2", "C02", "f35605b", "C02.stream", "'import os.path' binds os but a probe on os receives no event"),
  ("KF-C02-3", "C02", "bc90bec", "C02.stream", "a probe on the target of 'with cm() as w' receives no event (and the target is missing as context)"),
@@ -17,6 +23,8 @@ FIXED = [
  ("KF-C02-5", "C02", "2c06b0b", "C02.stream", "an assignment expression inside a lambda ((lambda: (y := v))()) is reported as a binding of the enclosing function's y"),
  ("KF-C02-6", "C02", "53d2f6f", "C02.stream", "an assignment expression in the index of a subscript target (o[(k := v)] = w) produces no event for k"),
  ("KF-C05-5", "C05", "3c5b147", "C05.module_namespace", "deactivating the last probe on a function leaves a None key in the globals of the function's module"),
+ ("KF-C02-7", "C02", "e851bb1", "C02.stream", "an assignment expression in the default value of a lambda or inner def ((lambda a=(k := v): a)) binds the function's own k but is not reported (regression of 2c06b0b)"),
+ ("KF-C02-8", "C02", "01bd81a", "C02.stream", "'with A() as a, B() as b': the binding of a is only reported once every item has been entered -- after B(), and not at all if entering B() fails"),
  ("KF-C06-2", "C06", "cfa9e89", "C06.meta", "'r = yield v' produces no #yield / #receive events"),
  ("KF-C07-1", "C07", "d3b8222", "C07.records", "with a total selector f(g(h(c))) and g recursive, each value of c is listed twice in the record of the call of f"),
  ("KF-C05-1", "C05", "56e9529", "C05.no_handlers", "global probes A then B activated, A deactivated first: B stops receiving events and A's handler comes back for good when B is deactivated"),
@@ -37,6 +45,7 @@ FIXED = [
  ("KF-C13-3", "C13", "447c057", "C13.activation", "obj.meth > v fails with 'unhashable type' when obj defines __eq__ without __hash__"),
  ("KF-C13-4", "C13", "681f302", "C13.receiver", "obj.meth > v on a receiver whose __eq__ raises / yields no truth value (array-like) makes the probed call fail: the receiver predicate was first compared to the captured value with =="),
  ("KF-C14-1", "C14", "755b237", "C14.resolves", "after a probe on a method K.meth, the reference /module/meth of the top-level function meth resolves to the method"),
+ ("KF-C14-3", "C14", "1a90fb0", "C14.resolves", "the reference of a function decorated with @tooled resolves to the orphaned original function instead of the tooled copy the name is bound to: no events, no error (regression of 755b237)"),
  ("KF-C14-2", "C14", "cd87ef6", "C14.resolves", "selecting /module/fn while a probe is active on fn fails with 'Reference is ambiguous' (when codefind scans the heap rather than its cache)"),
  ("KF-C16-3", "C16", "e824295", "C16.no_absent", "a declared-only variable (x: int) that no active selector names is bound to the ABSENT marker instead of failing with PteraNameError"),
  ("KF-C16-4", "C16", "f842ad6", "C16.no_absent", "an undefined global used on the taken path, and not in the capture set, evaluates to the ABSENT marker instead of raising NameError"),
@@ -44,6 +53,9 @@ FIXED = [
  ("KF-C09-2", "C09", "468b424", "C09.no_foreign_events", "while a generator is suspended, a call made by its driver is matched as if made inside the generator"),
  ("KF-C09-4", "C09", "5958c50", "C09.no_foreign_events", "a generator resumed by throw() (its handler catches) calls another function before binding anything: that call is not matched as made under the generator (gen > g > a gets no event), because the generator only takes its handlers back at its next instrumented binding"),
  ("KF-C08-1", "C08", "58916a9", "C08.quiescent", "two threads activating probes on the same function race in _tooler/push/_apply: 'NoneType is not iterable' / not properly tooled / counters left over"),
+ ("KF-C17-4", "C17", "1c11048", "demo:findings/review/R4/demo_1.py", "a probe whose deactivation fails before anything is undone (attempted from a copy of the context it was activated in) is marked as torn down all the same: no later deactivate(), nor the exit hook, ever uninstalls it (regression of 0f26a75)"),
+ ("KF-C08-3", "C08", "a93c42f", "C08.no_exception", "a thread that selects a function through its reference string while another thread activates or deactivates a probe on it is refused: 'Reference ... cannot be resolved' / 'is ambiguous' (the lookup is not covered by the tooling lock)"),
+ ("KF-C08-4", "C08", "184cfaa", "demo:findings/review/R3/demo_6b.py", "tooled.inplace runs outside the tooling lock: a probe activated by another thread in between leaves the function refused ('not properly tooled') for good (regression of be94eb2 + 58916a9)"),
  ("KF-C08-2", "C08", "13c39f3", "C08.thread_result", "a thread calling f by name while another thread's probe activation compiles f's variant runs the variant function object (its events are lost, or its self-reference global is not installed yet: NameError '_ptera__N')"),
 ]
 
@@ -53,6 +65,13 @@ cur = json.load(open(p))
 opened = [k for k in cur if k["status"] == "open"]
 out = list(opened)
 for kid, prop, commit, inv, what in FIXED:
+    if inv.startswith("demo:"):
+        # shown by a stand-alone script against the real code, not by a scenario of the check
+        assert os.path.exists(os.path.join(here, inv[5:])), kid
+        out.append({"id": kid, "property": prop, "status": "fixed", "commit": commit, "what": what,
+                    "replay": None, "demo": inv[5:], "invariant": None,
+                    "record": f"fixed: property={prop} {commit} {what}"})
+        continue
     assert os.path.exists(os.path.join(here, "findings", kid + ".json")), kid
     out.append({"id": kid, "property": prop, "status": "fixed", "commit": commit, "what": what,
                 "replay": f"findings/{kid}.json", "invariant": inv,
